@@ -135,12 +135,15 @@ Section PLAN2.
   Definition rn_flag (s : stage) (r : list stage) : bool :=
     match r with
     | [] => false
-    | n :: _ => if is_parser s then negb (is_parser n) else if LogqlPlan.is_drop s then negb (LogqlPlan.is_drop n) else is_relabel n
+    | n :: _ => match s with
+                | PLineFormat _ => true
+                | _ => if is_parser s then negb (is_parser n) else if LogqlPlan.is_drop s then negb (LogqlPlan.is_drop n) else is_relabel n
+                end
     end.
   Lemma renew_after_cons s r j i : (j <= i)%nat -> renew_after (s :: r) (Some j) i = rn_flag s r :: renew_after r (Some j) (S i).
   Proof.
     intros H. cbn [renew_after]. f_equal. unfold rn_flag. destruct r as [|n r']; [reflexivity|].
-    rewrite (leb_correct _ _ H), andb_true_r. reflexivity.
+    rewrite (leb_correct _ _ H), andb_true_r. destruct s; reflexivity.
   Qed.
   Lemma compat_next s n r m swap : frag_stage s = true -> frag_stage n = true -> compat m swap s ->
     compat (if rn_flag s (n :: r) then MFresh else mode_after s) (if rn_flag s (n :: r) then false else swap) n.
